@@ -395,8 +395,79 @@ pub fn replay(case: &serde_json::Value) -> i32 {
     1
 }
 
+/// (c) The `trap` listing made in a subshell: it shows the parent's traps until the subshell
+/// runs a `trap` command with operands (so that `x=$(trap)` works), and from then on describes the
+/// subshell itself — whether or not that command could change anything. The shell is started with
+/// SIGHUP ignored (cannot be trapped or reset in a non-interactive shell).
+fn subshell_listings(ctx: &Ctx) -> u64 {
+    use std::collections::BTreeSet;
+    // (command, effect on the subshell's own table: (signal, Some(text) = listed with that action, None = not listed))
+    let cmds: [(&str, Option<(&str, Option<&str>)>); 5] = [
+        ("trap 'p h' HUP", None),           // ignored at start-up: silently ineffective
+        ("trap 'p i' INT", Some(("INT", Some("'p i'")))),
+        ("trap - TERM", Some(("TERM", None))),
+        ("trap '' USR1", Some(("USR1", Some("''")))),
+        ("trap - HUP", None),               // cannot be reset either
+    ];
+    let mut hists: Vec<Vec<usize>> = vec![vec![]];
+    for a in 0..cmds.len() {
+        hists.push(vec![a]);
+        for b in 0..cmds.len() {
+            hists.push(vec![a, b]);
+        }
+    }
+    let mut n = 0;
+    for h in &hists {
+        for kind in ["subshell", "substitution"] {
+            let inner: String = h.iter().map(|i| format!("{}; ", cmds[*i].0)).collect();
+            let script = match kind {
+                "subshell" => format!("trap 'p c' TERM; trap '' QUIT; trap 'p u' USR1\n({inner}trap)\n"),
+                _ => format!("trap 'p c' TERM; trap '' QUIT; trap 'p u' USR1\nx=$({inner}trap)\necho \"$x\"\n"),
+            };
+            let mut setup = Setup::script(&script);
+            setup.ignored_signals = vec![1];
+            let r = vsh::run_once(&setup, &Default::default());
+            n += 1;
+            let got: BTreeSet<String> = r.stdout.lines().map(|l| l.to_string()).collect();
+            let mut want: BTreeSet<String> = BTreeSet::new();
+            if h.is_empty() {
+                for l in ["trap -- '' HUP", "trap -- '' QUIT", "trap -- 'p c' TERM", "trap -- 'p u' USR1"] {
+                    want.insert(l.to_string());
+                }
+            } else {
+                // the subshell's own table: command traps were reset on entry, ignored signals stay ignored
+                let mut table: std::collections::BTreeMap<&str, &str> = [("HUP", "''"), ("QUIT", "''")].into_iter().collect();
+                for i in h {
+                    if let Some((sig, act)) = cmds[*i].1 {
+                        match act {
+                            Some(a) => {
+                                table.insert(sig, a);
+                            }
+                            None => {
+                                table.remove(sig);
+                            }
+                        }
+                    }
+                }
+                for (sig, act) in table {
+                    want.insert(format!("trap -- {act} {sig}"));
+                }
+            }
+            if got != want || r.panic.is_some() {
+                ctx.violation(
+                    "c07:subshell-trap-listing",
+                    &format!("{kind} after {:?}: `trap` printed {got:?}, expected {want:?}; stderr={:?}", h.iter().map(|i| cmds[*i].0).collect::<Vec<_>>(), r.stderr),
+                    json!({"script": script, "ignored_at_startup": ["HUP"]}),
+                );
+            }
+        }
+    }
+    n
+}
+
 pub fn run(tier: Tier) -> i32 {
     let ctx = Ctx::new("C07", "exploration", tier);
+    let subshell_runs = subshell_listings(&ctx);
     let qmax = tier.pick(3, 4);
     let n = ALPHABET.len();
     let strings = AtomicU64::new(0);
@@ -442,9 +513,10 @@ pub fn run(tier: Tier) -> i32 {
     }
     histories.par_iter().for_each(|h| roundtrip(&ctx, h, &runs));
     let cov = json!({
-        "evaluations": strings.load(Relaxed) * 2 + runs.load(Relaxed),
+        "evaluations": strings.load(Relaxed) * 2 + runs.load(Relaxed) + subshell_runs,
+        "subshell_trap_listings": subshell_runs,
         "distinct_nontrivial": needing.load(Relaxed) + histories.len() as u64,
-        "rule": format!("(a) every string of length <= {qmax} over {} characters (all shell-special characters, quotes, blank/tab/newline, NEL, NBSP, U+2028, U+3000, é, a, 0): quote(s) is lexed as one word and expanded as an argument (with $a, $HOME, positional parameters, ~a home directories and globbable files present) and as the value of an assignment; both must give exactly s. (b) every single definition and {} ordered pairs out of {} definitions (aliases incl. global, scalars, arrays, exported, read-only, functions with every compound construct, set -o options, traps, umask) with 20 nasty strings; each relevant printer's output (alias NAME / alias, typeset -p, set, export -p, readonly -p, typeset -fp, set +o, trap, umask, umask -S) is evaluated by a fresh shell and the listed part of the state snapshot must be identical. Non-trivial = strings that needed quoting + histories.", ALPHABET.len(), histories.len() - ds.len(), ds.len()),
+        "rule": format!("(a) every string of length <= {qmax} over {} characters (all shell-special characters, quotes, blank/tab/newline, NEL, NBSP, U+2028, U+3000, é, a, 0): quote(s) is lexed as one word and expanded as an argument (with $a, $HOME, positional parameters, ~a home directories and globbable files present) and as the value of an assignment; both must give exactly s. (b) every single definition and {} ordered pairs out of {} definitions (aliases incl. global, scalars, arrays, exported, read-only, functions with every compound construct, set -o options, traps, umask) with 20 nasty strings; each relevant printer's output (alias NAME / alias, typeset -p, set, export -p, readonly -p, typeset -fp, set +o, trap, umask, umask -S) is evaluated by a fresh shell and the listed part of the state snapshot must be identical. (c) the `trap` listing printed inside ( ) and $( ) after every history of <= 2 trap commands in the subshell (incl. commands that cannot take effect because the signal was ignored at start-up): the parent's traps before the first trap command with operands, the subshell's own table afterwards. Non-trivial = strings that needed quoting + histories.", ALPHABET.len(), histories.len() - ds.len(), ds.len()),
         "samples": samples.take(),
         "strings": strings.load(Relaxed),
         "strings_needing_quoting": needing.load(Relaxed),
